@@ -98,6 +98,13 @@ def reduceat(ufunc, a, idx):
 
 
 def reduce_(ufunc, a, axis=0):
+    if a.ndim == 2 and axis in (-1, 1) and dim_value(a.shape_[1]) == 0:
+        # reduction over an empty last axis: every row gives the identity
+        kind = "bool" if ufunc.__name__ in ("logical_and", "logical_or") else a.kind
+        ident = identity_term(ufunc, kind)
+        if ident is None:
+            raise ValueError("zero-size array to reduction operation which has no identity")
+        return SymArr.fresh((a.shape_[0],), lambda i: ident, kind, _np.dtype(bool) if kind == "bool" else a.dtype)
     if a.ndim != 1:
         raise Unsupported("reduce on ndim > 1")
     c = cur()
